@@ -204,7 +204,8 @@ def classify(r, expect_covers=True):
         real = [(d, l) for d, l in r.failed_checks if not UNDECIDED_OBLIGATION.search(d)]
         if not real:
             r.status = "undecided"
-            r.reason = "only tool-limit checks failed: " + "; ".join(d for d, _ in r.failed_checks)[:300]
+            r.reason = ("only tool-limit checks failed: " + "; ".join(d for d, _ in r.failed_checks)[:300]) if r.failed_checks else \
+                "Kani reported a failure but no failing check could be parsed (unsupported construct or internal limit)"
         else:
             r.failed_checks = real + [(d, l) for d, l in r.failed_checks if UNDECIDED_OBLIGATION.search(d)]
         return
